@@ -58,6 +58,9 @@ def cmpop(op, a, b):
     return int({'<': a < b, '>': a > b, '<=': a <= b, '>=': a >= b}[op])
 
 
+NOTES = []      # facts about the evaluation of the current item that name its finding class
+
+
 def iop(op, a, b):
     if op == '+':
         return wrap(a + b)
@@ -78,13 +81,15 @@ def iop(op, a, b):
     if op == '!':
         return wrap((a % M) ^ (b % M))
     if op == '<<':
-        if not 0 <= b <= 63:
+        if b < 0:
             raise Skip()
-        return wrap((a % M) << b)
+        return wrap((a % M) << b) if b <= 63 else 0       # (64 bits: a count of 64 or more shifts everything out)
     if op == '>>':
-        if not 0 <= b <= 63 or a < 0:
+        if b < 0:
             raise Skip()
-        return wrap((a % M) >> b)
+        if a < 0 and b > 0:
+            NOTES.append('negative-value-shifted-right')
+        return wrap((a % M) >> b)                          # "log. shift right" (manual, table of operators)
     if op == '^':
         if b < 0:
             raise Skip()
@@ -211,6 +216,14 @@ def want_of(v):
 
 
 def item(expr, tree=None, val=None, tol=False, kind='dq'):
+    r = item0(expr, tree, val, tol, kind)
+    if r is not None and NOTES:
+        r['note'] = NOTES[0]
+    return r
+
+
+def item0(expr, tree=None, val=None, tol=False, kind='dq'):
+    del NOTES[:]
     try:
         v = ev(tree) if tree is not None else val()
     except Skip:
@@ -350,6 +363,24 @@ def functions():
         f('acosh(%s)' % L, dom(lambda x=x: math.acosh(x), x >= 1), True)
         f('atanh(%s)' % L, dom(lambda x=x: math.atanh(x), abs(x) < 1), True)
         f('coth(%s)' % L, dom(lambda x=x: 1 / math.tanh(x), x != 0), True) if x != 0 else f('coth(%s)' % L, dom(lambda: 0.0, False))
+    # int(): the floor of every float whose floor is a 64-bit integer, an error for the others (2^63 is the first that is not)
+    for L, x in [('0.5', 0.5), ('-0.5', -0.5), ('1.5', 1.5), ('-1.5', -1.5), ('2147483648.0', 2.0 ** 31), ('9007199254740992.0', 2.0 ** 53),
+                 ('4611686018427387904.0', 2.0 ** 62), ('9223372036854774784.0', 2.0 ** 63 - 1024), ('9223372036854775808.0', 2.0 ** 63),
+                 ('18446744073709551616.0', 2.0 ** 64), ('-9223372036854775808.0', -2.0 ** 63), ('-9223372036854777856.0', -2.0 ** 63 - 2048),
+                 ('1.0e30', 1e30), ('-1.0e30', -1e30)]:
+        def fi(x=x):
+            v = math.floor(x)
+            if not -2 ** 63 <= v < 2 ** 63:
+                raise Err()
+            return v
+        f('int(%s)' % L, fi)
+    # results beyond the double range are reported for both signs of the argument
+    for L in ('711.0', '-711.0', '800.0', '-800.0', '1.0e10', '-1.0e10'):
+        f('sinh(%s)' % L, dom(lambda: 0.0, False))
+        f('cosh(%s)' % L, dom(lambda: 0.0, False))
+    for L, x in (('709.0', 709.0), ('-709.0', -709.0)):
+        f('sinh(%s)' % L, (lambda x=x: math.sinh(x)), True)
+        f('cosh(%s)' % L, (lambda x=x: math.cosh(x)), True)
     f('sqrt(2)', lambda: math.sqrt(2.0), True)
     f('sqrt(0-1)', dom(lambda: 0.0, False))
     for c in [0, 64, 65, 90, 91, 96, 97, 122, 123, 255]:
@@ -513,6 +544,8 @@ def describe(case):
 def sigf(it):
     import re
     e = it.get('e', '')
+    if it.get('note'):
+        return it['note']
     if re.search(r'[0-9]E-[0-9]', e) and not e.startswith('(') and '(' not in e and re.search(r'[-+*/^]', re.sub(r'E-', 'E', e)):
         return 'bare-negative-exponent-literal-inside-formula'
     return re.sub(r'\(0(\.0)?-[0-9.E-]+(-1)?\)|[0-9][0-9A-Za-z.]*|"[^"]*"', 'N', e)[:40]
